@@ -147,6 +147,28 @@ def is_lazy_memo_attribute(model: Model, attr: str) -> bool:
     return stores > 0
 
 
+def call_is_rmw(model: Model, func: str, line: int) -> bool:
+    """Is the container-method call at `line` (append / add / setdefault / update ...) fed with a value computed from what
+    the same container currently holds (its length or its elements)?  e.g.  level = len(T); T.append(f(level))"""
+    fi = model.funcs.get(func)
+    if fi is None:
+        return False
+    fn = fi.node
+    for n in ast.walk(fn):
+        if isinstance(n, ast.Call) and getattr(n, "lineno", -1) == line and isinstance(n.func, ast.Attribute):
+            base = core.src(n.func.value)
+            seeds: Set[str] = set()
+            for a in list(n.args) + [k.value for k in n.keywords]:
+                if base in core.src(a):
+                    return True
+                seeds |= _names(a)
+            deps = derive_vars(fn, seeds)
+            for m in ast.walk(fn):
+                if isinstance(m, ast.Assign) and base in core.src(m.value) and (_names(m.targets[0]) & deps):
+                    return True
+    return False
+
+
 def write_is_definite(model: Model, sw: "SharedWrite") -> bool:
     """True when the write is data modification (scratch store, in-place transformation, counter-like update) rather than
     a possibly idempotent keyed fill"""
@@ -158,6 +180,8 @@ def write_is_definite(model: Model, sw: "SharedWrite") -> bool:
         if base.startswith("attr-store:") and not escaped and not is_lazy_memo_attribute(model, base.split(":", 1)[1]):
             return True
         if base == "subscript-store:key" and store_is_rmw(model, sw.origin_func, sw.origin_line):
+            return True
+        if base in ("method:append", "method:add", "method:setdefault", "method:update") and call_is_rmw(model, sw.origin_func, sw.origin_line):
             return True
     return False
 
